@@ -611,3 +611,124 @@ def parent_call(x: ast.AST, root: ast.AST):
         if isinstance(c, ast.Call) and c.func is x:
             return c
     return None
+
+
+# ---------------------------------------------------------------------------------------------------------------------
+# walking the executor's pools directly  ==  walking their indices
+
+_POOLS_OK: dict = {}
+
+
+def _pools_fixed(P) -> bool:
+    """`pools` has exactly `num_pools` entries for the whole run: both are written only while the Executor is built (raw scan of the package)"""
+    k = id(P)
+    if k not in _POOLS_OK or _POOLS_OK[k][0] is not P:
+        ok = True
+        for m in P.real_modules():
+            for f in m.funcs.values():
+                if f.cls == "Executor" and f.name == "__init__":
+                    continue
+                if _writes_attr(f.node, {"pools", "num_pools"}):
+                    ok = False
+        _POOLS_OK[k] = (P, ok)
+    return _POOLS_OK[k][1]
+
+
+def pool_walks(P, f: Func) -> Func:
+    """`for pool in X.pools` / `for i, pool in enumerate(X.pools)` (loops and comprehensions; X = `<s>.executor` or `self` inside Executor) is
+    `for i in range(X.num_pools)` with `X.pools[i]` for pool; `len(L)` of a list built with one entry per pool is `X.num_pools`."""
+    if not _pools_fixed(P):
+        return f
+    def owner_of(it):
+        e = it
+        if isinstance(e, ast.Call) and norm.is_name(e.func, "enumerate") and len(e.args) == 1 and not e.keywords:
+            e = e.args[0]
+        if isinstance(e, ast.Attribute) and e.attr == "pools" and norm.attr_chain(e.value) is not None:
+            t = norm.U(e.value)
+            if t.endswith(".executor") or (t == "self" and f.cls == "Executor"):
+                return e.value, e is not it
+        return None
+    sites = [n for n in _own(f.node) if (isinstance(n, (ast.For, ast.comprehension)) and owner_of(n.iter) is not None)]
+    if not sites:
+        return f
+    node = norm.clone(f.node)
+    m = {id(a): b for a, b in zip(ast.walk(f.node), ast.walk(node))}
+    changed = False
+    k = 0
+    per_pool_lists = {}
+    for s0 in sites:
+        s_ = m[id(s0)]
+        X, enum = owner_of(s_.iter)
+        tg = s_.target
+        if enum:
+            if not (isinstance(tg, ast.Tuple) and len(tg.elts) == 2 and all(isinstance(t, ast.Name) for t in tg.elts)):
+                continue
+            iv, pv = tg.elts[0].id, tg.elts[1].id
+        else:
+            if not isinstance(tg, ast.Name):
+                continue
+            k += 1
+            pv, iv = tg.id, f"{tg.id}__idx{k}"
+        # the scope in which pv stands for the pool: loop body / comprehension (elt + later generators + ifs)
+        if isinstance(s_, ast.For):
+            scope = list(s_.body)
+            if s_.orelse:
+                continue
+        else:
+            comp = None
+            for c_ in ast.walk(node):
+                if isinstance(c_, (ast.ListComp, ast.SetComp, ast.GeneratorExp, ast.DictComp)) and any(g_ is s_ for g_ in c_.generators):
+                    comp = c_
+            if comp is None:
+                continue
+            gi = [j for j, g_ in enumerate(comp.generators) if g_ is s_][0]
+            scope = ([comp.key, comp.value] if isinstance(comp, ast.DictComp) else [comp.elt]) + list(s_.ifs) + [x for g_ in comp.generators[gi + 1:] for x in [g_.iter] + g_.ifs]
+        if any(isinstance(x, ast.Name) and x.id in (pv, iv) and isinstance(x.ctx, (ast.Store, ast.Del)) for b_ in scope for x in ast.walk(b_)):
+            continue
+        repl = ast.Subscript(value=ast.Attribute(value=norm.clone(X), attr="pools", ctx=ast.Load()), slice=ast.Name(id=iv, ctx=ast.Load()), ctx=ast.Load())
+        for b_ in scope:
+            for x in ast.walk(b_):
+                if isinstance(x, ast.Name) and x.id == pv and isinstance(x.ctx, ast.Load):
+                    new = norm.clone(repl)
+                    keep = {k2: getattr(x, k2) for k2 in ("lineno", "col_offset", "end_lineno", "end_col_offset") if hasattr(x, k2)}
+                    x.__class__ = new.__class__
+                    x.__dict__.clear()
+                    x.__dict__.update(new.__dict__)
+                    x.__dict__.update(keep)
+        s_.target = ast.copy_location(ast.Name(id=iv, ctx=ast.Store()), tg)
+        s_.iter = ast.copy_location(ast.Call(func=ast.Name(id="range", ctx=ast.Load()), args=[ast.Attribute(value=norm.clone(X), attr="num_pools", ctx=ast.Load())], keywords=[]), s_.iter)
+        changed = True
+        # L = [<expr> for <this generator>]  has one entry per pool
+        if isinstance(s_, ast.comprehension):
+            for a_ in ast.walk(node):
+                if isinstance(a_, ast.Assign) and len(a_.targets) == 1 and isinstance(a_.targets[0], ast.Name) and isinstance(a_.value, ast.ListComp) \
+                        and len(a_.value.generators) == 1 and a_.value.generators[0] is s_ and not s_.ifs:
+                    per_pool_lists[a_.targets[0].id] = X
+    if not changed:
+        return f
+    # `[.. for _ in L]` / `len(L)` where L has one entry per pool and is bound once
+    stores = {}
+    for x in _own(node):
+        if isinstance(x, ast.Name) and isinstance(x.ctx, (ast.Store, ast.Del)):
+            stores[x.id] = stores.get(x.id, 0) + 1
+    muts = {x.func.value.id for x in _own(node) if isinstance(x, ast.Call) and isinstance(x.func, ast.Attribute) and isinstance(x.func.value, ast.Name)
+            and x.func.attr in ("append", "extend", "insert", "pop", "remove", "clear")}
+    for L, X in per_pool_lists.items():
+        if stores.get(L) != 1 or L in muts:
+            continue
+        for x in list(_own(node)):
+            if isinstance(x, ast.Call) and norm.is_name(x.func, "len") and len(x.args) == 1 and norm.is_name(x.args[0], L):
+                new = ast.Attribute(value=norm.clone(X), attr="num_pools", ctx=ast.Load())
+                keep = {k2: getattr(x, k2) for k2 in ("lineno", "col_offset", "end_lineno", "end_col_offset") if hasattr(x, k2)}
+                x.__class__ = new.__class__
+                x.__dict__.clear()
+                x.__dict__.update(new.__dict__)
+                x.__dict__.update(keep)
+            if isinstance(x, ast.comprehension) and norm.is_name(x.iter, L) and isinstance(x.target, ast.Name) and x.target.id.startswith("_") and not x.ifs:
+                x.iter = ast.copy_location(ast.Call(func=ast.Name(id="range", ctx=ast.Load()), args=[ast.Attribute(value=norm.clone(X), attr="num_pools", ctx=ast.Load())], keywords=[]), x.iter)
+    ast.fix_missing_locations(node)
+    for n in ast.walk(node):
+        for ch in ast.iter_child_nodes(n):
+            ch._parent = n  # type: ignore[attr-defined]
+    node._parent = getattr(f.node, "_parent", None)  # type: ignore[attr-defined]
+    return Func(f.mod, f.qual, node, f.cls)
